@@ -10,6 +10,7 @@
 import collections
 import hashlib
 import json
+import os
 import random
 import time
 import traceback
@@ -129,7 +130,11 @@ def run_shard(mod, tier, seed, shard, nshards, cases, only=None, budget_s=None):
     if hasattr(mod, "setup"):
         mod.setup(ctx)
     rng_range = [only] if only is not None else range(cases)
+    progress = os.environ.get("QV_PROGRESS")
+    pfd = os.open(progress, os.O_WRONLY | os.O_CREAT, 0o644) if progress else None
     for idx in rng_range:
+        if pfd is not None:
+            os.pwrite(pfd, b"%-12d" % idx, 0)
         if budget_s and time.time() - t0 > budget_s:
             ctx.notes["budget_stop_at"] = idx
             break
